@@ -4,11 +4,13 @@ import sys
 
 import checks_core
 import checks_sexp
+import checks_types
 
 CHECKS = {
     "C02": (lambda ctx: checks_core.run_core(ctx, "pre"), "model_checking"),
     "C03": (lambda ctx: checks_core.run_core(ctx, "eff"), "model_checking"),
     "C11": (checks_sexp.run, "model_checking"),
+    "C06": (checks_types.run, "model_checking"),
 }
 
 
@@ -41,6 +43,15 @@ META["C11"] = {
     "text": "MC_Sexp enumerates every text up to the bound and checks the small-step reader against the declarative "
             "reading (plus case-insensitivity and no-trailing laws; as-found variants are refuted); every such text and "
             "random structured texts are fed to PDDLTokenizer from string and from file and TLC judges each outcome."}
+META["C06"] = {
+    "engine": "M+G+V", "design_ref": "DESIGN.md section 6 (C06)",
+    "note": "Exhaustive over forests on 4/5 names and their renderings; larger forests random. The forest is read from the "
+            "same tokens by the specification; trusted base as for C01.",
+    "technique": "TLC model checking that the two-phase declaration pass is order independent (one-pass variant refuted) + "
+                 "TLC-generated renderings replayed into DomainParser / is_sub_type / ProblemParser / forall effects, judged by TLC",
+    "text": "MC_Types enumerates every forest, declaration order, grouping and spelling and checks that reading the "
+            "declarations back yields the forest's closure; the renderings are driven through the library and every subtype "
+            "answer, hierarchy edge, typed-fact acceptance and forall range is judged against the spec's reading."}
 NOT_YET = {}
 
 
